@@ -282,18 +282,39 @@ Proof.
     rewrite blit_from_nil. reflexivity.
 Qed.
 
+Lemma write_rows_from_spec w fb : forall x k rows,
+  0 <= x -> Forall (fun r => zlen r = w) rows -> Forall (fun r => x + w <= zlen r) fb ->
+  (rows = [] \/ (k + length rows <= length fb)%nat) ->
+  write_rows_from fb x k rows = Some (blit_from fb x (Z.of_nat k) rows).
+Proof.
+  induction fb as [|row fb' IH]; intros x k rows Hx Hr Hfb Hlen.
+  - destruct rows as [|r rs]; [reflexivity|]. destruct Hlen as [Hn|Hn]; [discriminate|cbn in Hn; lia].
+  - destruct rows as [|r rs].
+    { cbn [write_rows_from]. now rewrite blit_from_nil. }
+    destruct Hlen as [Hn|Hn]; [discriminate|].
+    inversion Hr as [|? ? Hv Hr']; subst. inversion Hfb as [|? ? Hrow Hfb']; subst.
+    cbn [write_rows_from blit_from]. destruct k as [|k'].
+    + change (Z.of_nat 0) with 0. destruct (Z.ltb_spec 0 0); [lia|].
+      unfold row_splice. rewrite row_write_some by lia.
+      rewrite (IH x 0%nat rs Hx Hr' Hfb'); [reflexivity|].
+      destruct rs; [now left|right; cbn [length] in *; lia].
+    + destruct (Z.ltb_spec 0 (Z.of_nat (S k'))); [|lia].
+      rewrite (IH x k' (r :: rs) Hx Hr Hfb'); [|right; cbn [length] in *; lia].
+      replace (Z.of_nat (S k') - 1) with (Z.of_nat k') by lia. reflexivity.
+Qed.
+
 Lemma fb_write_rows_spec W H fb x y w rows :
   fb_wf W H fb -> 0 <= x -> 0 <= y -> x + w <= W -> y + zlen rows <= H ->
   Forall (fun r => zlen r = w) rows ->
   fb_write_rows fb x y rows = Some (blit_spec fb x y rows).
 Proof.
-  intros Hfb Hx Hy Hw Hh Hr. revert fb y Hfb Hy Hh.
-  induction Hr as [|v rows Hv Hr IH]; intros fb y Hfb Hy Hh; cbn [fb_write_rows].
-  - unfold blit_spec. now rewrite blit_from_nil.
-  - rewrite zlen_cons in Hh. pose proof (zlen_nonneg rows).
-    erewrite fb_write_spec by (eauto; lia).
-    rewrite IH; [|apply blit_spec_wf; assumption|lia|lia].
-    f_equal. unfold blit_spec. apply blit_from_cons. assumption.
+  intros [Hl Hrw] Hx Hy Hw Hh Hr. unfold fb_write_rows, blit_spec.
+  destruct rows as [|r rs] eqn:E; [now rewrite blit_from_nil|]. rewrite <- E in *.
+  destruct (Z.ltb_spec y 0); [lia|].
+  rewrite (write_rows_from_spec w fb x (Z.to_nat y) rows Hx Hr).
+  - now rewrite Z2Nat.id by lia.
+  - eapply Forall_impl; [|exact Hrw]. intros r0 Hr0. cbn beta in Hr0. lia.
+  - right. unfold zlen in *. lia.
 Qed.
 
 (* ---------------------------------------------------------------- algebra of blit_spec *)
